@@ -212,7 +212,7 @@ def run(ctx):
     trees_ = []
     for K in Ks:
         cfg = tlc.make_cfg(constants=dict(K=K, MaxSets=2), spec="Spec", invariants=["Aligned", "Final", "PostOrderInv"])
-        r = tlc.run("TtnoColumns", cfg, timeout=3000)
+        r = tlc.run("TtnoColumns", cfg, vacuity=True, timeout=3000)
         ctx.add_tlc(r, f"TtnoColumns K={K}: all trees x 1-2 sets per node x dummy placements")
         if r["violated"]:
             ctx.violation(f"C02:spec:{r['violated']}", "TtnoColumns violates " + r["violated"], {"tlc": r.get("error_text", "")[:2000]})
